@@ -503,5 +503,6 @@ Qed.
 
 Lemma fai_newindex_total_gen file : safe (newindex file).
 Proof.
-  unfold newindex, newindex_gen. apply safe_bind; [apply ni_fold_safe|intros; exact I].
+  unfold newindex, newindex_gen. destruct (scan_tokens (lines file)) as [toks toolong].
+  apply safe_bind; [apply ni_fold_safe|intros; destruct toolong; exact I].
 Qed.
